@@ -38,7 +38,9 @@ inductive Op
   1: `AtomicWaker`, same test, the registration is taken back when `block_on` returns; 2: waker slot, ready iff
   `x_f == 2` read Relaxed (two wakers each add 1: what they publish reaches the future only through the wake);
   3: like 1 but the registration stays in the `AtomicWaker` (shared state that outlives the call);
-  4: like 3 but `block_on(poll_once(future))`: one poll, returns 0 if the future is still pending -/
+  4: like 3 but `block_on(poll_once(future))`: one poll, returns 0 if the future is still pending;
+  5: a `yield_now`-shaped future: its first poll wakes itself by reference through the borrowed waker (no clone
+  of the waker exists at that moment) and returns Pending, every later poll is Ready -/
   | blockOn (f : Nat) (mode : Nat)
   | wake (f : Nat) | wakeRef (f : Nat) | dropWaker (f : Nat) | awWake (f : Nat)
   | wakeQ (f : Nat)                -- `wake_by_ref` on the waker in the slot, without touching the flag
